@@ -1,6 +1,6 @@
 (* C04 — property theorems (statements only; proofs live in Proofs*.v). *)
 From Coq Require Import ZArith QArith Qround Bool List.
-Require Import QV.C04.Model QV.C04.Spec QV.C04.Proofs QV.C04.Proofs2 QV.C04.Proofs4 QV.C04.Proofs3 QV.C04.Proofs5 QV.C04.Proofs6.
+Require Import QV.C04.Model QV.C04.Spec QV.C04.Proofs QV.C04.Proofs2 QV.C04.Proofs4 QV.C04.Proofs3 QV.C04.Proofs5 QV.C04.Proofs6 QV.C04.Proofs7.
 Import ListNotations.
 Open Scope Q_scope.
 
@@ -236,3 +236,51 @@ Theorem C04_example_scope :
   /\ scope_sym ex_out_of_scope ex_float_env = true.
 Proof. exact example_scope. Qed.
 Print Assumptions C04_example_scope.
+
+(* round 6.  The reading guard g_view (a condition on the model's OUTPUT: binary and decimal reading of the comparisons
+   build the same program) is a consequence of an INPUT condition: no float anywhere - every parameter value and every
+   literal of the template is an int or a TimeType (exact_env / exact_pt).  On such inputs the code and its decimal
+   reading are the same function, whatever they answer ... *)
+Theorem C04_exact_inputs_same_reading : forall p e,
+  exact_env e = true -> exact_pt p = true -> cp real (resolve idf p) e = cp lax (resolve idf p) e.
+Proof. exact exact_inputs_same_reading. Qed.
+Print Assumptions C04_exact_inputs_same_reading.
+(* ... so g_view holds exactly when the code accepts ... *)
+Theorem C04_g_view_of_exact_inputs : forall p e,
+  exact_env e = true -> exact_pt p = true -> g_view p e = is_ok (cp real (rs p) e).
+Proof. exact g_view_of_exact_inputs. Qed.
+Print Assumptions C04_g_view_of_exact_inputs.
+(* ... and THE property holds for them without the reading guard: where no modelled finding class is met (cp ideal
+   accepts) and the leaves define the same channels, the code accepts and all four views are the symbolic duration *)
+Theorem C04_agree_exact_inputs : forall p e v,
+  exact_env e = true -> exact_pt p = true -> is_ok (cp ideal (rs p) e) = true -> g_uniform p e = true ->
+  sym p (decimalize e) = Ok v ->
+  exists o, create_program real p e = Ok o /\
+  match o with
+  | None => time_of v == 0
+  | Some prog => loop_duration prog == time_of v
+                 /\ (exists q, to_wf prog = Some q /\ q == time_of v)
+                 /\ sum_pieces 1 prog == time_of v
+  end.
+Proof. exact agree_exact_inputs. Qed.
+Print Assumptions C04_agree_exact_inputs.
+(* the program side against the specification `den`, same input condition instead of g_view *)
+Theorem C04_program_views_agree_exact_inputs : forall p e d,
+  exact_env e = true -> exact_pt p = true -> guard_finding FDropped p e = true -> g_uniform p e = true ->
+  den p (qenv_of e) = Some d ->
+  forall o, create_program real p e = Ok o ->
+  match o with
+  | None => d == 0
+  | Some prog => loop_duration prog == d /\ (exists q, to_wf prog = Some q /\ q == d) /\ sum_pieces 1 prog == d
+  end.
+Proof. exact program_views_agree_exact_inputs. Qed.
+Print Assumptions C04_program_views_agree_exact_inputs.
+(* non-vacuity (the for-loop and mapping examples satisfy all hypotheses) and necessity (on the float input w_view, whose
+   template has no float literal, the two readings build different programs) *)
+Theorem C04_example_exact_inputs :
+  exact_env ex_for_env = true /\ exact_pt ex_for = true /\ is_ok (cp ideal (rs ex_for) ex_for_env) = true
+  /\ g_uniform ex_for ex_for_env = true /\ (exists v, sym ex_for (decimalize ex_for_env) = Ok v /\ time_of v == 9 # 2)
+  /\ exact_env ex_swap_env = true /\ exact_pt ex_swap = true /\ exact_pt ex_drop = true
+  /\ exact_env (snd w_view) = false /\ exact_pt (fst w_view) = true /\ g_view (fst w_view) (snd w_view) = false.
+Proof. exact example_exact_inputs. Qed.
+Print Assumptions C04_example_exact_inputs.
